@@ -63,6 +63,10 @@ func (b *builder) buildObject(typ *ast.Definition) (*Object, error) {
 			return nil, err
 		}
 		obj.Type = goObject
+		if obj.IsMap() {
+			// a map-backed input is returned by value: its TypeReference never asks for a pointer
+			obj.PointersInUnmarshalInput = false
+		}
 	}
 
 	for _, intf := range b.Schema.GetImplements(typ) {
